@@ -689,6 +689,25 @@ impl Harness for WsSys {
             }
             conns.push(WConn { v6, ac: r.below(2) as u8, h: 10 + i as u16, pick: if r.chance(500) { r.range(1, 3) as u8 } else { 0 }, start_ms: *r.pick(&[0u32, 0, 20, 400]), script });
         }
+        // a crowd: many connections of one socket worker announce with offers at the same instant while one of them
+        // (connection 0, already in the swarm, reading promptly) has a request of its own in flight
+        let flood = (prop == "C17" || prop == "C09") && access_mode == 0 && (r.chance(40) || std::env::var_os("VERIF_FLOOD").is_some());
+        if flood {
+            conns.clear();
+            let v6 = layout % 3 == 1;
+            let n = r.range(19, 26) as usize;
+            // everybody's second step happens at the same simulated instant (80 ms)
+            let mut script0 = vec![WOp::Ann { t: 0, ev: Some(0), left: Some(7), offers: 0, ansp: None, nowait: false }, WOp::Sleep { ms: 80 }];
+            for _ in 0..r.range(1, 3) {
+                script0.push(if r.chance(500) { WOp::Scr { ts: Some(vec![0]) } } else { WOp::Ann { t: 0, ev: Some(2), left: Some(7), offers: 0, ansp: None, nowait: false } });
+            }
+            script0.push(WOp::Poll { ms: 300 });
+            conns.push(WConn { v6, ac: 0, h: 10, pick: 1, start_ms: 0, script: script0 });
+            for i in 1..n {
+                let script = vec![WOp::Sleep { ms: 50 }, WOp::Ann { t: 0, ev: Some(0), left: Some(7), offers: 30, ansp: None, nowait: false }, WOp::Poll { ms: 200 }];
+                conns.push(WConn { v6, ac: 0, h: 10 + i as u16, pick: 1, start_ms: 30, script });
+            }
+        }
         let mut faults = Vec::new();
         if c19 {
             let mut threads: Vec<String> = (1..=socket_workers).map(|i| format!("socket-{:02}", i)).collect();
@@ -735,7 +754,7 @@ impl Harness for WsSys {
             socket_workers,
             swarm_workers,
             layout,
-            max_offers: *r.pick(&[0usize, 1, 2, 10]),
+            max_offers: if flood { 30 } else { *r.pick(&[0usize, 1, 2, 10]) },
             max_scrape_torrents: *r.pick(&[1usize, 2, 255]),
             max_peer_age: 600,
             max_offer_age: *r.pick(&[2u32, 120]),
@@ -784,6 +803,10 @@ impl Harness for WsSys {
             stats.fault(k, v);
         }
         stats.handoffs += report.handoffs;
+        let dropped = glommio::sim_local_full_count();
+        if dropped > 0 {
+            stats.probe_n("out-message-dropped-connection-channel-full", dropped);
+        }
         stats.sim_seconds += report.now_ns / 1_000_000_000;
         let col = std::mem::take(&mut *col.lock().unwrap());
         let mut violations: Vec<Violation> = Vec::new();
@@ -1098,7 +1121,11 @@ impl Harness for WsSys {
                                 _ => true,
                             };
                             if judged {
-                                violations.push(Violation::new("C17", "one-reply-per-request", "request-unanswered", format!("connection #{}: request {:?} (event #{}) got no reply before the next request", c, prev, j)));
+                                // the connection's 16-slot channel overflowed in this run and at least a channel-full of
+                                // messages reached this connection after the request: the reply was among those dropped
+                                let got_since = log[j..i].iter().filter(|e| matches!(e, Ev::GotOffer { .. } | Ev::GotAnswer { .. })).count();
+                                let sig = if dropped > 0 && got_since >= 16 { "reply-lost-connection-channel-overflow" } else { "request-unanswered" };
+                                violations.push(Violation::new("C17", "one-reply-per-request", sig, format!("connection #{}: request {:?} (event #{}) got no reply before the next request ({} offers / answers reached it meanwhile; {} out-messages were dropped on full connection channels in this run)", c, prev, j, got_since, dropped)));
                             }
                         }
                         outstanding = Some((i, e));
